@@ -226,6 +226,9 @@ func (dr *DecodingReader) List(add func() Deserializable, fixedElemSize uint64, 
 		if firstOffset%4 != 0 {
 			return fmt.Errorf("first offset of list is invalid, not a multiple of 4: %d", firstOffset)
 		}
+		if firstOffset == 0 || uint64(firstOffset) > scope {
+			return fmt.Errorf("first offset of list is out of range: %d, scope is %d", firstOffset, scope)
+		}
 		length := uint64(firstOffset / 4)
 		if length > limit {
 			return fmt.Errorf("too many items in list: %d > %d", length, limit)
